@@ -312,3 +312,35 @@ fn_t RATE_CB[] = {
 };
 
 #endif
+
+#if defined SOXR_VERIF && defined SOXR_LIB /* Verification hook (add-only): name this engine's stage functions. */
+#define VERIF_KIND__(cb) cb##_verif_kind
+#define VERIF_KIND_(cb) VERIF_KIND__(cb)
+char const * VERIF_KIND_(RATE_CB)(stage_fn_t fn);
+char const * VERIF_KIND_(RATE_CB)(stage_fn_t fn)
+{
+  if (fn == cubic_stage_fn) return "cubic:cubic";
+  if (fn == vpoly0) return "poly0:vpoly0";
+  if (fn == vpoly1) return "poly1:vpoly1";
+  if (fn == vpoly2) return "poly2:vpoly2";
+  if (fn == vpoly3) return "poly3:vpoly3";
+#if !(CORE_TYPE & CORE_SIMD_POLY)
+  if (fn == U100_0) return "poly0:U100_0";
+  if (fn == u100_0) return "poly0:u100_0";
+  if (fn == u100_1) return "poly1:u100_1";
+  if (fn == u100_2) return "poly2:u100_2";
+#endif
+  if (fn == h8) return "half:h8";
+  if (fn == h9) return "half:h9";
+#if !(CORE_TYPE & CORE_SIMD_HALF)
+  if (fn == h7) return "half:h7";
+#endif
+#if CORE_TYPE & CORE_DBL
+  if (fn == h10) return "half:h10";
+  if (fn == h11) return "half:h11";
+  if (fn == h12) return "half:h12";
+  if (fn == h13) return "half:h13";
+#endif
+  return 0;
+}
+#endif
